@@ -175,13 +175,17 @@ func rawTypes(o *dops) []string {
 // gridTypes builds the whole type grid of one dialect.
 func gridTypes(o *dops, tier string) []gtype {
 	var g []gtype
-	seen := map[string]bool{}
+	seen := map[string]int{}
 	add := func(t schema.Type, origin string) {
 		k := showType(t)
-		if seen[k] {
+		if i, ok := seen[k]; ok {
+			// a type first met as a model-tie-only variant is a type of the dialect when a spec / raw text yields it
+			if (origin == "spec" || origin == "raw") && (g[i].origin == "specx" || g[i].origin == "cross") {
+				g[i].origin = origin
+			}
 			return
 		}
-		seen[k] = true
+		seen[k] = len(g)
 		g = append(g, gtype{t, origin})
 	}
 	// 1. every registered spec x parameter grid; the class is the one ParseType gives to the spec's T.
